@@ -956,6 +956,13 @@ class Interp:
                     return
             el = Grid(v.dims[1:], v.elem) if v.ndim > 1 else v.elem
             items.append(Loop(idx0, ext, [Elem(el)], None, ("grid", v)))
+        elif isinstance(v, Grid) and v.ndim >= 1 and len(v.dims[0]) > 1:
+            # product dimension: nested loops, major axis outermost
+            el = Grid(v.dims[1:], v.elem) if v.ndim > 1 else v.elem
+            cur = [Elem(el)]
+            for a, e in reversed(v.dims[0]):
+                cur = [Loop(a, e, cur, None, ("grid", v))]
+            items.extend(cur)
         else:
             items.append(Splice(v))
 
